@@ -34,6 +34,15 @@ func (g *gen) pick(l []string) string { return l[g.r.Intn(len(l))] }
 // node returns a ref to a random component of the kind (if allowed and any) or an inline value.
 func (g *gen) node(kind string, depth int, pos string, lowerOnly bool) *Node {
 	names := g.names[kind]
+	if g.o.Tame && kind == "schemas" && g.cur.kind == "schemas" {
+		// kin-openapi v0.125 loads documents with cyclic schema references only for some map
+		// iteration orders ("circular schema reference not handled"); tame documents are acyclic
+		lowerOnly = true
+	}
+	if kind == "callbacks" && g.cur.kind == "callbacks" {
+		// kin-openapi's loader recurses without bound on cyclic callbacks (fatal stack overflow)
+		lowerOnly = true
+	}
 	if lowerOnly && g.cur.kind == kind {
 		if g.cur.idx < len(names) {
 			names = names[:g.cur.idx]
@@ -109,11 +118,11 @@ func (g *gen) inline(kind string, depth int) *Val {
 			key := g.pick([]string{"oneOf", "anyOf"})
 			n := 1 + g.r.Intn(3)
 			for i := 0; i < n; i++ {
-				g.kid(v, []string{key, fmt.Sprint(i)}, "schemas", depth, "schema."+key, false)
+				g.kid(v, []string{key, fmt.Sprint(i)}, "schemas", depth, "schema."+key, g.o.Tame)
 			}
 		case 8: // not
 			v.Fields["type"] = "string"
-			g.kid(v, []string{"not"}, "schemas", depth, "schema.not", false)
+			g.kid(v, []string{"not"}, "schemas", depth, "schema.not", g.o.Tame)
 		}
 	case "parameters":
 		v.Fields["name"] = fmt.Sprintf("q%d", g.r.Intn(1000000))
@@ -171,7 +180,7 @@ func (g *gen) inline(kind string, depth int) *Val {
 		}
 		g.opKids(func(path []string, kind string, pos string) {
 			g.kid(v, append([]string{expr, m}, path...), kind, depth, "callback."+pos, false)
-		}, depth >= g.o.MaxDepth-1)
+		}, g.o.Tame || depth >= g.o.MaxDepth-1)
 	}
 	return v
 }
@@ -268,7 +277,47 @@ func Generate(r *rand.Rand, o GenOpts) (*Doc, map[string]int) {
 		d.Paths = append(d.Paths, p)
 	}
 	fixParamNames(d)
+	if o.Tame {
+		dedupeParams(d)
+	}
 	return d, g.PosCount
+}
+
+// dedupeParams drops repeated references to one parameter component within an operation
+// (and between an operation and its path item): the generator rejects duplicates.
+func dedupeParams(d *Doc) {
+	for _, p := range d.Paths {
+		seenPath := map[string]bool{}
+		var pp []*Node
+		for _, n := range p.Params {
+			if n.Ref != "" && seenPath[n.Ref] {
+				continue
+			}
+			seenPath[n.Ref] = true
+			pp = append(pp, n)
+		}
+		p.Params = pp
+		for _, o := range p.Ops {
+			seen := map[string]bool{}
+			for k := range seenPath {
+				seen[k] = true
+			}
+			var kids []Kid
+			idx := 0
+			for _, k := range o.Kids {
+				if k.Pos == "operation.parameters" {
+					if k.Node.Ref != "" && seen[k.Node.Ref] {
+						continue
+					}
+					seen[k.Node.Ref] = true
+					k.Path = []string{"parameters", fmt.Sprint(idx)}
+					idx++
+				}
+				kids = append(kids, k)
+			}
+			o.Kids = kids
+		}
+	}
 }
 
 // fixParamNames makes inline parameter names unique per document (duplicate query
